@@ -66,10 +66,14 @@ func genProgram(rt *rapid.T, nShapes, nProbes int) program {
 			ok = len(sh.inner) > 0
 		case "struct":
 			ok = !sh.isArray
+		case "innerstruct":
+			ok = !sh.isArray && len(sh.inner) > 0
+		case "leaffield":
+			ok = directLeaf(sh) != ""
 		}
 		if !ok {
 			for _, alt := range usable {
-				if (c.needs == "cmp" && alt.comparable) || (c.needs == "inner" && len(alt.inner) > 0) || (c.needs == "struct" && !alt.isArray) {
+				if (c.needs == "cmp" && alt.comparable) || (c.needs == "inner" && len(alt.inner) > 0) || (c.needs == "struct" && !alt.isArray) || (c.needs == "innerstruct" && !alt.isArray && len(alt.inner) > 0) || (c.needs == "leaffield" && directLeaf(alt) != "") {
 					sh, ok = alt, true
 					break
 				}
@@ -93,7 +97,13 @@ func genProgram(rt *rapid.T, nShapes, nProbes int) program {
 				}
 			}
 		}
-		body := strings.NewReplacer("{T}", sh.name, "{K1}", fmt.Sprint(k+1), "{K}", fmt.Sprint(k), "{INT}", inT, "{IN}", in).Replace(c.body)
+		lf, lfv := directLeaf(sh), "7"
+		for _, l := range sh.leafPaths {
+			if l.path == lf && l.kind == "string" {
+				lfv = "\"seven\""
+			}
+		}
+		body := strings.NewReplacer("{LF}", lf, "{LFV}", lfv, "{T}", sh.name, "{K1}", fmt.Sprint(k+1), "{K}", fmt.Sprint(k), "{INT}", inT, "{IN}", in).Replace(c.body)
 		id := len(p.probes)
 		src := fmt.Sprintf("// %s on %s\nfunc p%d() (r string) {\n\tdefer func() {\n\t\tif x := recover(); x != nil {\n\t\t\tr = \"PANIC \" + classify(x)\n\t\t}\n\t}()\n\treturn func() string { %s }()\n}\n\n", c.name, sh.name, id, body)
 		p.probes = append(p.probes, probe{id: id, ctx: c.name, shape: sh.name, depth: sh.depth, src: src})
@@ -175,4 +185,17 @@ func TestCheck(t *testing.T) {
 			c.Remove()
 		}
 	})
+}
+
+// directLeaf returns the path (".F2") of an int or string field directly inside a struct shape.
+func directLeaf(sh *shape) string {
+	if sh.isArray {
+		return ""
+	}
+	for _, l := range sh.leafPaths {
+		if strings.Count(l.path, ".") == 1 && !strings.ContainsAny(l.path, "[") && strings.HasPrefix(l.path, ".F") && (l.kind == "int" || l.kind == "string") {
+			return l.path
+		}
+	}
+	return ""
 }
